@@ -11,10 +11,15 @@ EXPLANATION = (
     "every int<->float crossing; String/ID: str; Boolean: bool), anything else raises. The input "
     "coercers are verified the same way, with exceptional postconditions ('raises only if the "
     "input is outside the domain'), and the output->input round trip is proved as ghost "
-    "functions over those contracts.")
+    "functions over those contracts. Enum types: coerce_output_value returns the name of a member of "
+    "the enum or raises (the scan for unhashable values is verified: it returns the name of a member whose "
+    "value equals the result; the lookup table for hashable values is an assumed contract, see "
+    "trusted_base); coerce_input_value / coerce_input_literal accept exactly a str / an EnumValue naming a "
+    "member and return that member's value. Executor.complete_leaf_value never passes None / Undefined on as a "
+    "leaf result.")
 UNVERIFIED = [
-    "GraphQLEnumType.coerce_output_value / coerce_input_value (value lookup) - added with C15",
-    "Executor.complete_leaf_value rejecting None/Undefined (C02)",
+    "GraphQLEnumType._value_lookup (the dict python value -> first member name is not modelled: assumed to hold "
+    "names of self.values only; that the *first* member with an equal value is the one emitted is not decided)",
     "a decimal string converted by float(str) is rounded to the nearest double (not counted as precision loss, DESIGN.md C16)",
 ]
 TRUSTED = []
